@@ -34,7 +34,11 @@
 (* (Emit) prints one line  SCEN {sc, cfg, design}  per scenario - the      *)
 (* scenario, its concretisation for the harness and the design-level       *)
 (* deviations.  The same run is the design check AND the scenario          *)
-(* generator.  Variant = "fixed" is checked with DesignOK as a real        *)
+(* generator (since /repo a4b4b62 the plug-ins receive the request's        *)
+(* params and cookies, KeyPlacement is a real INVARIANT of "as_is" too;    *)
+(* what remains violated is SentEqualsFold for case-variant names).        *)
+(* Variant = "fixed" (case-insensitive merge) is checked with DesignOK as  *)
+(* a real                                                                  *)
 (* INVARIANT (the reference is satisfiable); Variant = "aliased_defaults"  *)
 (* (prepared headers alias the defaults dict) must VIOLATE                 *)
 (* DefaultsUnchanged / RequestIsolation (the properties bind).             *)
